@@ -23,7 +23,8 @@ func init() {
 			"R5 on the cache-hit branch no call that can issue a token request or a registry round trip is reachable before the return; " +
 			"R6 the acquisition after a challenge passes ParseScope(challenge's scope parameter) as the Union receiver and the union of the desired and required scopes as its argument; " +
 			"R7 lockset for ociauth.registry and stdTransport.registries, with the sync.Once initialisation exemption verified rather than assumed. " +
-			"R1b the expiry purge examines every cached token (slices.DeleteFunc, or a loop whose exit does not depend on a token's expiry).",
+			"R1b the expiry purge examines every cached token (slices.DeleteFunc, or a loop whose exit does not depend on a token's expiry). " +
+			"R1c the purge instant (time.Now) is read with the registry lock held; R6b the first token request of an acquisition always asks for required ∪ desired scope.",
 		NotDecided: "real-time expiry (that a token is unexpired when sent) and what the token server actually grants are not decided.",
 		Technique:  "static analysis: SSA dominance, phi-edge pairing of token and scope, reachability on the CFG, lockset dataflow",
 	})
